@@ -196,7 +196,7 @@ pub const C01: ConcCheck = ConcCheck {
 
 fn c01_shard(ctx: &Ctx, out: &mut ShardOut) {
     let pool = Pool::new();
-    let n = ctx.share(ctx.by_tier(320, 12_000)) as u32;
+    let n = ctx.share(ctx.by_tier(1600, 24_000)) as u32;
     C01.run(ctx, &pool, 1, n, &budget_for(ctx.tier, ctx.shard_seed(77)), out);
 }
 fn c01_replay(_sub: &str, case: &Value) -> Result<(), CaseFail> {
